@@ -44,6 +44,8 @@ using vf::Rng;
 // ---------------------------------------------------------------------------------------------
 static vf::raw_atomic<int64_t> g_live{0};
 static vf::raw_atomic<int64_t> g_double_free{0};
+// while the consumer is inside CircularBuffer::Clear(): the elements the buffer destroys are the ones it consumed
+static thread_local std::vector<std::pair<uint32_t, uint32_t>> *g_clear_sink = nullptr;
 
 struct Elem
 {
@@ -57,6 +59,8 @@ struct Elem
       g_double_free.fetch_add(1, std::memory_order_relaxed);
     magic = 0xdeadbeef;
     g_live.fetch_sub(1, std::memory_order_relaxed);
+    if (g_clear_sink)
+      g_clear_sink->emplace_back(p, s);
   }
 };
 
@@ -277,6 +281,24 @@ static QueueRun execute_queue(const QueueCfg &c, int consumer_style, uint64_t se
         h.consume_calls.push_back(stamp());
         std::vector<std::pair<uint32_t, uint32_t>> got;
         std::vector<uint64_t> took;
+        if (cr.chance(1, 8))
+        {
+          // Clear() is a consumer-side operation too (it may race with producers): what the buffer destroys inside
+          // it counts as consumed - exactly once, nothing skipped, nothing left behind in a slot
+          g_clear_sink = &got;
+          buf.Clear();
+          g_clear_sink = nullptr;
+          uint64_t rs = stamp() + 1;
+          for (auto &g : got)
+          {
+            h.consumed.push_back(g);
+            h.consumed_stamp.push_back(rs);
+          }
+          R.count("queue_clear_calls");
+          if (!got.empty())
+            R.count("queue_clear_calls_nonempty");
+          continue;
+        }
         buf.Consume(k, [&](CircularBufferRange<AtomicUniquePtr<Elem>> range) noexcept {
           range.ForEach([&](AtomicUniquePtr<Elem> &ptr) noexcept {
             std::unique_ptr<Elem> out;
@@ -683,6 +705,20 @@ static void run_queue_free(uint64_t seed)
         size_t k = static_cast<size_t>(cr.range(1, static_cast<int64_t>(sz)));
         std::vector<std::pair<uint32_t, uint32_t>> got;
         std::vector<uint64_t> took;
+        if (cr.chance(1, 8))
+        {
+          g_clear_sink = &got;
+          buf.Clear();
+          g_clear_sink = nullptr;
+          uint64_t rs = vf::EventLog::now();
+          for (auto &g : got)
+          {
+            h.consumed.push_back(g);
+            h.consumed_stamp.push_back(rs);
+          }
+          R.count("queue_free_clear_calls");
+          continue;
+        }
         buf.Consume(k, [&](CircularBufferRange<AtomicUniquePtr<Elem>> range) noexcept {
           range.ForEach([&](AtomicUniquePtr<Elem> &ptr) noexcept {
             std::unique_ptr<Elem> out;
